@@ -52,9 +52,9 @@ pub open spec fn rule_vtable(m: Map<ItemId, HasVtableResult>, ctx: &BindgenConte
     }
 }
 
-// stands for: info.base_members().iter().filter_map(|base| self.sized.get(&base.ty)).fold(ZeroSized, |a, b| a.join(*b))
-pub uninterp spec fn s_bases_join(m: Map<TypeId, SizednessResult>, info: &CompInfo) -> SizednessResult;
-#[verifier::external_body] pub fn bases_join(m: &HashMap<TypeId, SizednessResult>, info: &CompInfo) -> (r: SizednessResult) ensures r == s_bases_join(m.view(), info) { unimplemented!() }
+// stands for: info.base_members().iter().map(|base| table entry, or the layout-based answer for a base outside the analysis).fold(ZeroSized, join)
+pub uninterp spec fn s_bases_join(m: Map<TypeId, SizednessResult>, ctx: &BindgenContext, info: &CompInfo) -> SizednessResult;
+#[verifier::external_body] pub fn bases_join(m: &HashMap<TypeId, SizednessResult>, ctx: &BindgenContext, info: &CompInfo) -> (r: SizednessResult) ensures r == s_bases_join(m.view(), ctx, info) { unimplemented!() }
 
 // RULE "is zero-sized" (sizedness.rs module docs)
 pub open spec fn rule_sized(m: Map<TypeId, SizednessResult>, ctx: &BindgenContext, id: TypeId) -> SizednessResult {
@@ -71,7 +71,7 @@ pub open spec fn rule_sized(m: Map<TypeId, SizednessResult>, ctx: &BindgenContex
             TypeKind::TemplateInstantiation(inst) => sz_at(m, inst.s_definition()),
             TypeKind::Array(_, n) => if n == 0 { SizednessResult::ZeroSized } else { SizednessResult::NonZeroSized },
             TypeKind::Vector(..) => SizednessResult::NonZeroSized,
-            TypeKind::Comp(info) => if !info.s_no_fields() { SizednessResult::NonZeroSized } else { s_bases_join(m, &info) },
+            TypeKind::Comp(info) => if !info.s_no_fields() { SizednessResult::NonZeroSized } else { s_bases_join(m, ctx, &info) },
             TypeKind::Opaque | TypeKind::UnresolvedTypeRef(..) => SizednessResult::ZeroSized,   // excluded by the preconditions
         }
     }
@@ -133,7 +133,7 @@ UNIT = {
              ("ty.layout(self.ctx).map_or(SizednessResult::ZeroSized, |l| {", "match ty.layout(self.ctx) { None => SizednessResult::ZeroSized, Some(l) => {", 1, "R7"),
              ("SizednessResult::NonZeroSized } });", "SizednessResult::NonZeroSized } } };", 1, "R7"),
              ("!info.fields().is_empty()", "!info.has_no_fields()", 1, "R5"),
-             ("info .base_members() .iter() .filter_map(|base| self.sized.get(&base.ty)) .fold(SizednessResult::ZeroSized, |a, b| a.join(*b))", "bases_join(&self.sized, info)", 1, "R5"),
+             (("info .base_members() .iter() .map(|base| {", ".fold(SizednessResult::ZeroSized, |a, b| a.join(b))"), "bases_join(&self.sized, self.ctx, info)", 1, "R5 join over the base classes (an entry of the table, or - for a base outside the analysis - BindgenContext::sizedness_outside_analysis, unit base_storage)"),
              ('unreachable!("covered by the .is_opaque() check above")', "vstd::pervasive::unreached()", 1, "R15"),
              ('unreachable!("Should have been resolved after parsing!");', "vstd::pervasive::unreached()", 1, "R15"),
          ],
